@@ -37,6 +37,11 @@ def _dispatcher_filter(repo, getter: str, default_name: str):
     return f
 
 def run(ctx: Ctx):
+    # apply_instructions looks every instruction's previous activity up BEFORE any transition runs: that is the activity the vehicle is
+    # really in only if at most one instruction per vehicle is applied in a step (one pop per vehicle id)
+    from .c09 import step_phases as _step_phases
+    ctx.attempt(_step_phases, ctx)
+    ctx.attempt(rules.rule_entity_entry, ctx, "D1", "a request (and the assignment record it carries) enters the simulation only through the request updates")
     repo = ctx.repo
     rules.rule_pairing(ctx, KINDS, "D1", "D1")
     for name, want in (("DispatchTrip", True), ("DispatchPoolingTrip", True)):
